@@ -27,7 +27,11 @@ u128 nondet_u128(void);
 float nondet_float(void);
 double nondet_double(void);
 char *nondet_ptr(void);
-#define LL2C_POISON(T, cond, val) ((cond) ? (T)nondet_##T() : (T)(val))
+/* poison = "some value no clause may rely on": an uninterpreted function of the (model-level) operand bits, so that two
+ * extractions executing the same operation on the same bits still agree (relational contracts), while nothing can be
+ * proved about the value itself */
+u64 __CPROVER_uninterpreted_ll2c_poison(u64);
+#define LL2C_POISON(T, cond, val) ((cond) ? (T)__CPROVER_uninterpreted_ll2c_poison((u64)(val)) : (T)(val))
 #define LL2C_UNDEF(T) ((T)nondet_##T())
 #define LL2C_UNDEF_F32 nondet_float()
 #define LL2C_UNDEF_F64 nondet_double()
